@@ -154,6 +154,32 @@ func runFacts(id string, h *harnessSpec) (findings []*sx.Finding, nfacts int, qu
 	} else if r == smt.Unknown {
 		return nil, nfacts, nil, 0, fmt.Errorf("solver unknown on Q3")
 	}
+	// Q4: two fields of one message structure mapped to the same AVP name (the
+	// second would be sent under the code of the first and lost on receipt)
+	ids := map[string]uint64{}
+	idOf := func(k string) uint64 {
+		if v, ok := ids[k]; ok {
+			return v
+		}
+		ids[k] = uint64(len(ids) + 1)
+		return ids[k]
+	}
+	structOf := func(x *smt.Term) *smt.Term {
+		return table(x, len(tags), func(i int) *smt.Term {
+			return c.Const(idOf("S:"+strings.SplitN(tags[i].where, ".", 2)[0]), 32)
+		}, 32)
+	}
+	nameOf := func(x *smt.Term) *smt.Term {
+		return table(x, len(tags), func(i int) *smt.Term { return c.Const(idOf("N:"+tags[i].name), 32) }, 32)
+	}
+	q4 := []*smt.Term{c.Ult(a, b), c.Ult(b, c.Const(uint64(len(tags)), W)), c.Eq(structOf(a), structOf(b)), c.Eq(nameOf(a), nameOf(b))}
+	if r, v := s.Check(q4, []*smt.Term{a, b}); r == smt.Sat {
+		x, y := tags[v[0]], tags[v[1]]
+		findings = append(findings, &sx.Finding{Harness: h.Func, Kind: "assert", Name: "the fields of one message structure are mapped to distinct AVPs",
+			Site: fmt.Sprintf("%s and %s are both tagged avp:%q", x.where, y.where, x.name)})
+	} else if r == smt.Unknown {
+		return nil, nfacts, nil, 0, fmt.Errorf("solver unknown on Q4")
+	}
 	queries = map[string]int{"sat": s.NSat, "unsat": s.NUnsat, "unknown": s.NUnknown}
 	return findings, nfacts, queries, s.Time.Seconds(), nil
 }
